@@ -14,11 +14,18 @@ Theorem C16_intersection : forall a b,
 Proof. exact intersection_spec. Qed.
 Print Assumptions C16_intersection.
 
+(* restriction is sound as set inclusion, also between wildcards of different target namespaces *)
 Theorem C16_restriction_sound : forall a b,
-  wtns a = wtns b -> is_restriction a b = true ->
+  is_restriction a b = true ->
   forall n, n <> xsi -> allowed a n = true -> allowed b n = true.
-Proof. exact restriction_sound. Qed.
+Proof. exact restriction_sound_tns. Qed.
 Print Assumptions C16_restriction_sound.
+
+Theorem C16_restriction_old_refuted :
+  exists a b n, is_restriction_old a b = true /\ is_restriction a b = false /\ n <> xsi /\
+                allowed a n = true /\ allowed b n = false.
+Proof. exact restriction_old_refuted. Qed.
+Print Assumptions C16_restriction_old_refuted.
 
 Theorem C16_overlap_iff : forall a b,
   wtns a = wtns b -> wfl a -> wfl b ->
